@@ -257,7 +257,8 @@ func c07Scens(tier string) []msScen {
 	return out
 }
 
-var c07Epilogue = []string{"IDX", "PL", "BR", "PH", "SEG", "PART", "INIT", "UNK"}
+// (the part and the segment are asked for twice: a request that fails must not leave anything locked for the next one)
+var c07Epilogue = []string{"IDX", "PL", "BR", "PH", "SEG", "PART", "INIT", "UNK", "PART", "SEG"}
 
 func c07Check(st *msState, s *vsched.Sched, tr *vsched.Trace) (string, []vsched.Viol) {
 	var viols []vsched.Viol
